@@ -11,6 +11,7 @@
 import copy
 from collections import defaultdict
 from typing import Dict, List, Tuple
+from urllib.parse import unquote
 
 from torchsnapshot.dtensor_utils import _ReplicatedShards
 
@@ -281,7 +282,9 @@ def _remove_entry(manifest: Manifest, logical_path: str) -> None:
 
     parent = manifest[parent_path]
     if is_dict_entry(parent):
-        if key in parent.keys:
-            parent.keys.remove(key)
-        else:
-            parent.keys.remove(int(key))
+        # The path component of a key is derived from str(key)
+        key = unquote(key)
+        for k in parent.keys:
+            if str(k) == key:
+                parent.keys.remove(k)
+                break
